@@ -322,6 +322,14 @@ def generate(prop, rng, tier):
             spec["name"] = rng.choice([None, "load", "v"])
         else:
             cols = rng.choice([["p"], ["p", "q"], ["foo", "bar", "baz"]])
+            if rng.random() < 0.2:
+                # a data column labelled like an index level some other operand may have (a frame that was
+                # reset_index()ed, a column "scenario" next to a load indexed by scenario)
+                other = [x for x in NAMES if isinstance(x, str) and x not in names]
+                if other:
+                    cols = list(cols)
+                    cols[rng.randrange(len(cols))] = rng.choice(other)
+                    spec["column_named_like_a_level"] = True
             spec["columns"] = cols
             spec["values"] = [[cnt.next() for _ in cols] for _ in rows]
             if rng.random() < 0.15:
@@ -746,6 +754,10 @@ def _run(trace, out, log):
             return
         log.add(k, "bc", i, j, sig, snapshot(obj_r)["rows"], snapshot(prm_r)["rows"])
         out.count("op:bc")
+        for x_, y_ in ((obj, prm_o), (prm_o, obj)):
+            if isinstance(x_, pd.DataFrame) and isinstance(getattr(y_, "index", None), pd.Index) and \
+                    any(isinstance(c_, str) and c_ in y_.index.names for c_ in x_.columns):
+                out.count("probe:column_named_like_a_level_of_the_other_operand")
         if not check_pool(k, "bc"):
             return
         if special:
